@@ -214,9 +214,37 @@ def r13d(F):
 		out.append(Result('13.d', False, 'floor:non-minimal', 'BigSize::read: expected three minimality checks, found %d' % n, n, where=F.where(br.name)))
 	return out
 
+def r13e(F):
+	"""length accounting of variable-size address entries is done in the width of the wire length field"""
+	out = []
+	fn = MSGS + 'SocketAddress::len'
+	fu = F.func(fn)
+	n = 0
+	bad = []
+	for bi, si, s in fu.stmts():
+		rv = s[2]
+		if rv[0] == 'bin' and rv[1].startswith(('Add', 'Mul')):
+			n += 1
+			for o in (rv[2], rv[3]):
+				if o[0] == 'k' and o[1].get('ty') not in (None, 'u16'):
+					bad.append((s[0], o[1].get('ty')))
+				elif o[0] in ('c', 'm') and len(o[1]) == 1:
+					ty = (fu.locals[o[1][0]].get('ty') or '')
+					if ty in ('u8', 'i8'):
+						bad.append((s[0], ty))
+	ok = n >= 1 and not bad
+	out.append(Result('13.e', ok, ('ok:' if ok else 'width:') + 'address-length-in-u16', 'SocketAddress::len adds the 3 header bytes to a hostname length (up to 255) in u16, the width of node_announcement addrlen (%d arithmetic op(s))%s' % (n, '' if not bad else '; narrow operands: %s - a 253..255 byte hostname overflows (panic with overflow checks, wrong addrlen / over-read without)' % bad), n, where=F.where(fn)))
+	# the same function drives both directions: writer (addrlen) and reader (accounting of consumed bytes)
+	F.calls
+	users = {root_fn(r[0]).rsplit('::', 1)[-1] + '@' + ('write' if 'Writeable' in root_fn(r[0]) else 'read' if 'Readable' in root_fn(r[0]) else 'other') for r in F.callers_of.get(F.fn(fn), [])}
+	okb = any(u.endswith('@write') for u in users) and any(u.endswith('@read') for u in users)
+	out.append(Result('13.e', okb, ('ok:' if okb else 'shape:') + 'len-used-both-ways', 'SocketAddress::len is used by the node_announcement writer and reader (%s)' % sorted(users), len(users), where=F.where(fn)))
+	return out
+
 RULES = [
 	('13.a', 'wire::Message tables (write / type_id / do_read) agree; type ids distinct; unknown even disconnects, unknown odd ignored', r13a),
 	('13.b', 'hand-written message TLV tables: every written type is read; macro codecs symmetric with increasing types', r13b),
 	('13.c', 'every TLV read loop of a wire decoder: increasing types, unknown-even rejected, records framed and drained', r13c),
+	('13.e', 'address length accounting uses the wire length width (u16) in both directions', r13e),
 	('13.d', 'BigSize / CollectionLength: writer widths equal reader minimality thresholds; non-minimal forms rejected', r13d),
 ]
